@@ -438,6 +438,14 @@ impl<T: Float + std::ops::AddAssign> Categorical<T> {
             rng: SmallRng::from_os_rng(),
         }
     }
+
+    /// Verification hook: like [`Categorical::new`] but with a caller-supplied generator.
+    #[cfg(feature = "verif-hooks")]
+    pub fn with_rng(probs: Vec<T>, rng: SmallRng) -> Self {
+        let mut out = Self::new(probs);
+        out.rng = rng;
+        out
+    }
 }
 
 impl<T: Float + std::ops::AddAssign> Discrete<T> for Categorical<T>
